@@ -8,6 +8,7 @@ mod env;
 mod kit;
 mod props;
 mod script;
+mod secrets;
 mod tun;
 
 use common::Args;
